@@ -49,6 +49,8 @@ MANIFEST = {
 PROPS = {
     "C03": ["NotAhead", "BelongsToBlock", "AppendOnlySuccessor", "EqualsHardcoded",
             "DisputeCommitsHonest", "HonestNotBanned", "HonestNotBannedInFetch", "LiarsBanned"],
+    # judged only on the CFRace slice, on behalf of the BlockManager family (run_race)
+    "C19": ["EventsFollowChainOrder"],
 }
 
 CODE_VERSION = json.load(open(os.path.join(SPEC, "code_version.json")))
@@ -70,7 +72,7 @@ ASSUMPTIONS = [
     "one real height of that segment; only heights 1000j and 1000j+e occur as chain tips",
 ]
 
-LIARS = ["CP", "CX", "PV", "OM", "NH", "NS", "EX", "HC", "FO"]
+LIARS = ["CP", "CX", "PV", "OM", "OU", "NH", "NS", "EX", "HC", "FO"]
 
 
 def scen_tla(asg, bt, ft, hard):
@@ -96,6 +98,7 @@ def core_scenarios(maxh):
         ([H, ("HC", 3), T], maxh, 1, 0),        # false batched answer against true checkpoints
         ([T, ("EX", 2), T], 4, 0, 2),           # only the liar answers: the hard-coded checkpoint decides
         ([H, ("HC", 1), H], 3, 2, 0),           # at the tip a liar with a false PrevFilterHeader
+        ([H, ("OU", 3), ("OU", 3)], maxh, 3, 0),  # two liars whose filters omit the unparsable output script
     ]
     return S
 
@@ -149,7 +152,7 @@ def label(act):
         s += "(%s)" % ",".join(str(x) for x in act.get("rs", []))
     elif s == "CPDeliver":
         s += "(%d,p%d)" % (act.get("j", 0), act.get("p", 0))
-    elif s in ("Rollback", "Extend", "RBlk", "UBlk"):
+    elif s in ("Rollback", "Extend", "RBlk", "UBlk", "Recv"):
         s += "(%d)" % act.get("n", 0)
     return s + "=" + str(act.get("res"))
 
@@ -188,25 +191,47 @@ def race_scenarios(tier):
     return out
 
 
+def all_maximal_paths(g, limit=200000):
+    """Every path from an initial state to a state without successors (the graph is acyclic)."""
+    out = []
+    for n0, _ in g.inits:
+        stack = [(n0, [])]
+        while stack:
+            n, path = stack.pop()
+            outs = g.out[n]
+            if not outs:
+                if path:
+                    out.append(path)
+                    if len(out) > limit:
+                        raise core.MachineryError("too many schedules")
+                continue
+            for ei in outs:
+                stack.append((g.edges[ei][2], path + [ei]))
+    return out
+
+
 def race_phase(tier, rng, sc, first_id):
-    """CFRace.tla: rollBackToHeight against writeCFHeadersMsg at store-call granularity.
-    Returns (path lines, number of predicted paths, info, edges)."""
+    """CFRace.tla: rollBackToHeight against writeCFHeadersMsg at store-call / event-delivery granularity.
+    (a) the model with the mutex as in the code: every transition replayed as a prediction;
+    (b) the variant without the mutex: EVERY schedule with at most 1 (thorough: 2) unforced context
+        switches, replayed as schedules only.
+    Returns (path lines, number of predicted paths, info, edges, totals)."""
     scen = race_scenarios(tier)
     defs = "RScenSet == {%s}" % ", ".join(scen)
     lines, info, edges, tot = [], {}, [], _Sum()
     n_pred = 0
-    for mutex in (RACE_MUTEX, not RACE_MUTEX):
-        tlc = core.run_tlc([SPEC], "CFRace", dict(Mutex=mutex), workers=1,
+    for mutex, maxcs in ((RACE_MUTEX, 99), (not RACE_MUTEX, 1 if tier == "quick" else 2)):
+        predicted = mutex == RACE_MUTEX
+        tlc = core.run_tlc([SPEC], "CFRace", dict(Mutex=mutex, MaxCS=maxcs), workers=1,
                            invariants=["TypeOK"] + (["NoViolation"] if mutex else []),
                            cfg_extra="CONSTANT RScen <- RScenSet", extra_defs=defs,
                            workdir=os.path.join(sc, "race%d" % mutex), timeout=900)
         if not tlc.ok:
             raise core.MachineryError("TLC on CFRace failed: %s\n%s" % (tlc.error, tlc.stdout_tail[-3000:]))
         g = core.Graph.load(tlc)
-        pp, _ = core.edge_cover(g, rng)
+        pp = core.edge_cover(g, rng)[0] if predicted else all_maximal_paths(g)
         tmp = os.path.join(sc, "racepaths%d.ndjson" % mutex)
         core.write_paths(g, pp, tmp)
-        predicted = mutex == RACE_MUTEX
         for line in open(tmp):
             d = json.loads(line)
             d["id"] = first_id + len(lines)
@@ -218,11 +243,27 @@ def race_phase(tier, rng, sc, first_id):
             edges = g.edges
             tot.generated, tot.distinct, tot.depth, tot.wall = tlc.generated, tlc.distinct, tlc.depth, tlc.wall
         info["mutex_%s" % str(mutex).lower()] = {
-            "states": tlc.distinct, "edges": len(g.edges), "paths": len(pp),
+            "states": tlc.distinct, "edges": len(g.edges), "paths": len(pp), "max_context_switches": maxcs,
             "model_violating_edges": sum(1 for e in g.edges if e[4]), "predicts_the_code": predicted}
         shutil.rmtree(os.path.join(sc, "race%d" % mutex), ignore_errors=True)
     info["scenarios"] = len(scen)
     return lines, n_pred, info, edges, tot
+
+
+def run_driver_retry(binary, test, pf, out, sc, **kw):
+    """runtime.Stack(all) of Go 1.25 can crash (SIGSEGV in runtime.(*unwinder).next) when another thread is
+    inside a system call; that is a fault of the machinery, not of the code under test: run again."""
+    for attempt in range(3):
+        try:
+            return family.run_driver(binary, test, pf, out, sc, **kw)
+        except core.MachineryError as e:
+            if attempt == 2 or not ("SIGSEGV" in str(e) or "unwinder" in str(e) or "\ngs  " in str(e)):
+                raise
+            print("driver: Go runtime crashed while dumping goroutines, running it again", file=sys.stderr)
+
+
+def run_race_driver(binary, rpf, out, sc):
+    return run_driver_retry(binary, "TestVerifCFRaceReplay", rpf, out, sc, timeout=3600)
 
 
 def race_drift(lines, observed):
@@ -259,6 +300,63 @@ def race_drift(lines, observed):
                                 "model": e["steps"][bad - 1] if bad else e["init_obs"],
                                 "code": steps[bad - 1] if bad and bad <= len(steps) else t.get("init_obs")})
     return n_steps, n_drift, samples, skipped
+
+
+RACE_ASSUMPTIONS = [
+    "rollBackToHeight and writeCFHeadersMsg each run in one goroutine; a step is one store call of blockManagerCfg."
+    "BlockHeaders / RegFilterHeaders, or one event taken from the unbuffered blockNtfnChan by the only receiver",
+    "a goroutine waiting for a mutex inside one of the two functions, or blocked sending a block event, is "
+    "recognised from two agreeing goroutine dumps",
+    "one chain of 3-4 blocks (block id = height); the cfheaders message and the rollback target are chosen per "
+    "scenario; behaviours of the model variant without the mutex are replayed as schedules only",
+]
+
+
+def run_race(prop_id, tier, seed, replay=None):
+    """The CFRace slice alone (rollBackToHeight against writeCFHeadersMsg at store-call and event-delivery
+    granularity), judged with the clauses PROPS[prop_id].  Prints KNOWN-FINDING / VIOLATION lines for prop_id
+    and returns (exit code, coverage dict) - for checks of other families that want to merge it
+    (C19: EventsFollowChainOrder).  replay: a saved trace of this slice (its init_obs has "rsc")."""
+    t0 = time.time()
+    rng = random.Random(seed)
+    sc = core.scratch("cfr")
+    evdir = core.scratch("cfrev")
+    old = os.environ.get("VERIF_EVIDENCE_DIR")
+    try:
+        if replay:
+            pf = os.path.join(sc, "replay.ndjson")
+            family.paths_from_replay(replay, pf)
+            d = json.loads(open(pf).readline())
+            d["sched"] = True
+            lines, info, tot = [json.dumps(d)], {}, _Sum()
+        else:
+            lines, n_pred, info, edges, tot = race_phase(tier, rng, sc, 0)
+            tot.edges = edges
+        binary = family.build_overlay_test(
+            PKG, [DRIVER, RACE_DRIVER], os.path.join(sc, "neutrino.test"),
+            extra_overlay={os.path.join(core.REPO, "chainsync", os.path.basename(HOOK)): HOOK})
+        rpf = os.path.join(sc, "racepaths.ndjson")
+        open(rpf, "w").write("\n".join(lines) + "\n")
+        robs, _ = run_race_driver(binary, rpf, os.path.join(sc, "raceobs.ndjson"), sc)
+        for t in robs:
+            t["steps"] = t["steps"] or []
+        rd = race_drift(lines, robs)
+        info.update({"replayed_paths": len(robs), "replayed_steps": sum(len(t["steps"]) for t in robs),
+                     "schedule_commands_not_applicable": rd[3]})
+        verdict = family.judge([SPEC], "CFSyncProps", PROPS[prop_id], prop_id, robs, label=label)
+        os.environ["VERIF_EVIDENCE_DIR"] = evdir
+        rc = family.finish(prop_id, tier, seed, t0, tot, tot if not replay else None, [[0]] * len(lines), robs,
+                           verdict, rd[:3], {"race_slice": info, "race_mutex": RACE_MUTEX},
+                           RACE_ASSUMPTIONS, label=label)
+        cov = json.load(open(os.path.join(evdir, prop_id + ".json")))["coverage"]
+        return rc, cov
+    finally:
+        if old is None:
+            os.environ.pop("VERIF_EVIDENCE_DIR", None)
+        else:
+            os.environ["VERIF_EVIDENCE_DIR"] = old
+        shutil.rmtree(sc, ignore_errors=True)
+        shutil.rmtree(evdir, ignore_errors=True)
 
 
 class _Sum:
@@ -339,15 +437,14 @@ def run(prop_id, tier, seed, replay=None):
             observed = []
             open(pf, "w").close()
         else:
-            observed, log = family.run_driver(binary, "TestVerifCFSyncReplay", pf, os.path.join(sc, "obs.ndjson"), sc,
-                                              env_extra={"VERIF_SEED": str(seed), "VERIF_CFS_MAXH": str(maxh)},
-                                              timeout=7200)
+            observed, log = run_driver_retry(binary, "TestVerifCFSyncReplay", pf, os.path.join(sc, "obs.ndjson"), sc,
+                                             env_extra={"VERIF_SEED": str(seed), "VERIF_CFS_MAXH": str(maxh)},
+                                             timeout=7200)
         dr = my_drift(pf, observed)
         if race_lines:
             rpf = os.path.join(sc, "racepaths.ndjson")
             open(rpf, "w").write("\n".join(race_lines) + "\n")
-            robs, _ = family.run_driver(binary, "TestVerifCFRaceReplay", rpf, os.path.join(sc, "raceobs.ndjson"),
-                                        sc, timeout=3600)
+            robs, _ = run_race_driver(binary, rpf, os.path.join(sc, "raceobs.ndjson"), sc)
             rd = race_drift(race_lines, robs)
             for t in robs:
                 t["steps"] = t["steps"] or []
